@@ -20,7 +20,7 @@ import (
 
 // ForcedCase is one pool entry.
 type ForcedCase struct {
-	Motif string // ep-evasion, double-push-interposition, promotion-only, few-replies-in-check, few-moves-quiet
+	Motif string // ep-evasion, double-push-interposition, promotion-only, few-replies-in-check, few-moves-quiet, pinned-piece-moves-only
 	Fen   string // the forced-reply position
 	Pred  string // a position one ply earlier ("" if none was found)
 	Move  string // the move leading from Pred to Fen
@@ -337,6 +337,49 @@ func buildForcedPool(seed uint64, perMotif int) []ForcedCase {
 			if add("few-moves-quiet", p) {
 				ne++
 			}
+		}
+	}
+	// F: not in check, the king cannot move and every legal move is a move of ONE piece that is pinned to the
+	// king (a pawn pushed along the file it is pinned on, a slider moving along the pin line / capturing the pinner)
+	dirs := [][2]int{{0, 1}, {0, -1}, {1, 0}, {-1, 0}, {1, 1}, {1, -1}, {-1, 1}, {-1, -1}}
+	for n, tries := 0, 0; n < perMotif && tries < 600000; tries++ {
+		p := base()
+		bk := r.n(64)
+		p.B[bk] = 'k'
+		d := dirs[r.n(8)]
+		orth := d[0] == 0 || d[1] == 0
+		at := func(k int) int {
+			f, rk := rc.FileOf(bk)+k*d[0], rc.RankOf(bk)+k*d[1]
+			if f < 0 || f > 7 || rk < 0 || rk > 7 {
+				return -1
+			}
+			return rc.Sq(f, rk)
+		}
+		k1 := 1 + r.n(3)
+		k2 := k1 + 1 + r.n(4)
+		x, y := at(k1), at(k2)
+		if x < 0 || y < 0 {
+			continue
+		}
+		pinned := "prq"[r.n(3)]
+		pinner := "RQ"[r.n(2)]
+		if !orth {
+			pinned = "bq"[r.n(2)]
+			pinner = "BQ"[r.n(2)]
+		}
+		if pinned == 'p' && (d[0] != 0 || rc.RankOf(x) == 0 || rc.RankOf(x) == 7) {
+			continue // a pawn only moves along a file pin
+		}
+		p.B[x], p.B[y] = pinned, pinner
+		reserved := map[int]bool{}
+		for k := 1; k < k2; k++ {
+			reserved[at(k)] = true // the pin line stays open
+		}
+		if !fill(r, &p, reserved) || p.Validate() != nil || p.InCheck(false) {
+			continue
+		}
+		if allOfKind(&p, p.Legal(), func(m rc.Move) bool { return m.From == x }) && add("pinned-piece-moves-only", p) {
+			n++
 		}
 	}
 	sort.SliceStable(pool, func(i, j int) bool { return pool[i].Motif < pool[j].Motif })
